@@ -96,6 +96,18 @@ impl Bij {
         }
     }
 
+    /// Like `unify`, without the distinctness half: an unbound name takes whatever is seen.
+    pub fn unify_soft(&mut self, model: u64, seen: &Option<String>) -> bool {
+        match (self.m2c.get(&model), seen) {
+            (_, None) => false,
+            (Some(c0), Some(c)) => c0 == c,
+            (None, Some(c)) => {
+                self.m2c.insert(model, c.clone());
+                true
+            }
+        }
+    }
+
     pub fn dump(&self) -> Value {
         json!(self.m2c.iter().map(|(k, v)| (k.to_string(), v.clone())).collect::<HashMap<_, _>>())
     }
@@ -109,7 +121,9 @@ pub fn model_id(v: &Value) -> u64 {
 pub fn unify_ids(b: &mut Bij, want: &Value, trace: &Option<String>, id: &Option<String>, parent: &Option<String>) -> bool {
     // trace ids and span ids live in different name spaces of the bijection
     let t = model_id(&want[0]);
-    let ok_t = b.unify(if t == 0 { 0 } else { t + 1_000_000 }, trace);
+    // names >= SOFT (spec/Traceparent.tla) are trace ids the statement does not pin down: they are
+    // bound to what is seen first and must then stay the same, but may coincide with another name
+    let ok_t = if t >= 1000 && t < 1_000_000 { b.unify_soft(t + 1_000_000, trace) } else { b.unify(if t == 0 { 0 } else { t + 1_000_000 }, trace) };
     let ok_i = b.unify(model_id(&want[1]), id);
     let ok_p = b.unify(model_id(&want[2]), parent);
     ok_t && ok_i && ok_p
@@ -122,4 +136,53 @@ pub fn incoming_trace(model: u64) -> emit::TraceId {
 
 pub fn incoming_span(model: u64) -> emit::SpanId {
     emit::SpanId::from_u64(0xb000_0000_0000_0000u64 + model).unwrap()
+}
+
+/// A runtime in whatever form the crate offers it (statically typed with the context as a
+/// value / `&C` / `Option<C>` / `Box<C>` / `Arc<C>` / `Box<dyn ErasedCtxt + Send + Sync>`, or the
+/// fully type-erased ambient runtime that `emit::setup()..init_slot(..)` installs).  The
+/// harnesses are generic over it: the properties do not depend on the form.
+pub trait RtT: Send + Sync + 'static {
+    type E: Emitter + Send + Sync + 'static;
+    type F: emit::Filter + Send + Sync + 'static;
+    type C: emit::Ctxt<Frame = Self::Fr> + Send + Sync + 'static;
+    type Fr: Send + 'static;
+    type T: Clock + Send + Sync + 'static;
+    type G: Rng + Send + Sync + 'static;
+    fn get(&self) -> &emit::runtime::Runtime<Self::E, Self::F, Self::C, Self::T, Self::G>;
+}
+
+impl<E, F, C, T, G> RtT for emit::runtime::Runtime<E, F, C, T, G>
+where
+    E: Emitter + Send + Sync + 'static,
+    F: emit::Filter + Send + Sync + 'static,
+    C: emit::Ctxt + Send + Sync + 'static,
+    C::Frame: Send + 'static,
+    T: Clock + Send + Sync + 'static,
+    G: Rng + Send + Sync + 'static,
+{
+    type E = E;
+    type F = F;
+    type C = C;
+    type Fr = C::Frame;
+    type T = T;
+    type G = G;
+    fn get(&self) -> &Self {
+        self
+    }
+}
+
+/// Runs one case; implemented per runtime form so that a worker can hold all forms.
+pub trait CaseRunner: Send {
+    fn form(&self) -> &'static str;
+    fn run(&mut self, no: usize, case: &Value) -> crate::Outcome;
+}
+
+/// Shared counter clock / rng handles (the ambient runtime takes ownership of its parts).
+#[derive(Clone)]
+pub struct SharedRng(pub Arc<CounterRng>);
+impl Rng for SharedRng {
+    fn fill<A: AsMut<[u8]>>(&self, arr: A) -> Option<A> {
+        self.0.fill(arr)
+    }
 }
